@@ -97,6 +97,20 @@ func (h *hist) witness() map[string]any {
 	return map[string]any{"router": h.rn, "storage_extras": h.extras, "history": h.log, "pool": h.pool}
 }
 
+// sampleView is the witness with long token strings abbreviated (for the evidence file).
+func (h *hist) sampleView() map[string]any {
+	pool := make([]mTok, len(h.pool))
+	for i, t := range h.pool {
+		pool[i] = *t
+		pool[i].Str = short(t.Str)
+	}
+	log := make([]opLog, len(h.log))
+	for i, l := range h.log {
+		log[i] = opLog{l.Op, trunc(l.Detail, 260), trunc(l.Result, 200)}
+	}
+	return map[string]any{"router": h.rn, "storage_extras": h.extras, "history": log, "pool": pool}
+}
+
 // violate records a violation; the history goes on (model and world still agree: a wrongly honoured or wrongly refused
 // request changed nothing). fatal is for violations after which the world may have diverged from the model.
 func (h *hist) violate(key, what string) {
@@ -111,7 +125,7 @@ func (h *hist) fatal(key, what string) {
 func (h *hist) note(op, detail, result string) { h.log = append(h.log, opLog{op, detail, result}) }
 
 func (h *hist) bad(resp *opdrv.Resp, where string) bool {
-	if h.panicked(resp, h.caseIdx, where, h.witness()) {
+	if h.panicked(resp, h.caseIdx, where, func() any { return h.witness() }) {
 		h.note("PANIC", where, resp.Panic.Value+" at "+resp.Panic.Site())
 		return true
 	}
@@ -807,7 +821,7 @@ func runHistory(run *ev.Run, caseIdx int, router int) {
 			h.opExpire()
 		}
 	}
-	if !h.stop && caseIdx < 2 {
-		run.SampleKind(fmt.Sprintf("history-%s-%d", h.rn, caseIdx), h.witness())
+	if !h.stop && caseIdx == 0 {
+		run.SampleKind("history-"+h.rn, h.sampleView())
 	}
 }
